@@ -560,7 +560,7 @@ theorem winv_of_eff (cfg : Cfg)
       exact Nat.lt_of_lt_of_le (hinv.bound w hm) hts.len
     · simp only [h.threads]; exact hinv.nodup
   | restart hth => rw [hnr] at hth; cases hth
-  | setShut r hth hw hs h1 ht h3 h4 hp =>
+  | setShut r r' hth hw hs h1 ht h3 h4 hp =>
     have htgt : targetOf th' = targetOf th := by rw [hth, hw]; rfl
     have hwk : isWorker th' = isWorker th := by rw [hth, hw]; rfl
     refine ⟨?_, ?_, ?_, ?_, ?_⟩
